@@ -12,6 +12,10 @@ CHECKS = {
          "real-arithmetic reading of float64; scipy.stats logpdfs replaced by documented closed forms; reference densities written from docstrings; concrete matrices from a small-integer family"),
  'C01': ("for the model graphs a-d (Gaussian/GMRF/LMRF/Gamma factors, linear models, hyper-parameters through one- and two-argument callables) and every DAG on <=3 (quick) / <=4 (thorough) uninterpreted factors: every subset of variables fixed, in every ordered partition into <=2/3 conditioning calls, by keyword or position, evaluates to joint.logd(complete assignment) for ALL values; stacked / posterior / multiple-likelihood / BayesianProblem views agree; malformed evaluations raise",
          "real-arithmetic reading of float64; values boxed to |v|<=64 where float constants occur (tolerance 1e-9); a reduced single density refusing a further conditioning call counts as a refusal, not as a violation"),
+ 'C07': ("for matrix-/sparse-/function-backed linear models with every listed geometry and for the Deconvolution1D (all PSFs, size parities, 5 BCs, legacy), Deconvolution2D (PSF 2x2..4x4, 5 BCs) and Abel1D models at small sizes: <Ax,y> = <x,A*y> for ALL x,y (bilinear SMT identity / 1e-9 over a box), get_matrix()@x = forward(x), T swaps forward/adjoint, T.T = A",
+         "FFT convolution replaced by the validated direct-sum reference; dims <= 8 (1D) / 5x5 (2D)"),
+ 'C13': ("for every listed geometry, size, number of modes/steps and projection: fun2par(par2fun(p)) = p, projection idempotent, maps act column-wise on 2-3 column batches, reported shapes equal produced shapes, Samples/CUQIarray conversions agree with per-sample maps and round-trip, StepExpansion nodes partitioned and mapped to the documented step, KL expansion equals the documented sine series - all for ALL parameter vectors / function values",
+         "dst/idst as validated linear-kernel stubs (tolerance 1e-9 over |p|<=64); StepExpansion grids from an enumerated concrete family (membership uses float comparisons that are not quantified over)"),
  'C20': ("exhaustive over sizes (1D n=2..6/8, 2D up to 3x3/4x4), boundary conditions, orders 0-2 and spacings: operator rows equal reference stencils applied to a symbolic vector, 2D = documented Kronecker stacking, precision = D^T D, symmetric, x^T P x = |Dx|^2, null space exactly the one implied by the bc (both inclusions as SMT implications), GMRF rank / sqrtprec / log-determinant consistent with the precision",
          "reference stencils written by loops from the documentation; the undocumented 'backward' rows are compared up to sign; float Cholesky factors enter as exact rationals with tolerance"),
 }
